@@ -119,8 +119,8 @@ struct RowReq {
     file: Option<u64>,
     line: u64,
     col: u64,
-    disc: u64,
-    flags: u64, // 1 stmt, 2 basic_block, 4 prologue_end, 8 epilogue_begin
+    disc: Option<u64>, // None: leave what generate_row left (0)
+    flags: u64, // 16: leave basic_block/prologue_end/epilogue_begin as generate_row left them (false); 1 stmt, 2 basic_block, 4 prologue_end, 8 epilogue_begin
     isa: u64,
 }
 
@@ -135,7 +135,7 @@ fn parse_row(t: &str) -> Option<RowReq> {
         file: if f[2] == "~" { None } else { Some(f[2].parse().ok()?) },
         line: f[3].parse().ok()?,
         col: f[4].parse().ok()?,
-        disc: f[5].parse().ok()?,
+        disc: if f[5] == "~" { None } else { Some(f[5].parse().ok()?) },
         flags: f[6].parse().ok()?,
         isa: f[7].parse().ok()?,
     })
@@ -151,11 +151,15 @@ fn set_row(prog: &mut LineProgram, r: &RowReq) {
     }
     row.line = r.line;
     row.column = r.col;
-    row.discriminator = r.disc;
+    if let Some(d) = r.disc {
+        row.discriminator = d;
+    }
     row.is_statement = r.flags & 1 != 0;
-    row.basic_block = r.flags & 2 != 0;
-    row.prologue_end = r.flags & 4 != 0;
-    row.epilogue_begin = r.flags & 8 != 0;
+    if r.flags & 16 == 0 {
+        row.basic_block = r.flags & 2 != 0;
+        row.prologue_end = r.flags & 4 != 0;
+        row.epilogue_begin = r.flags & 8 != 0;
+    }
     row.isa = r.isa;
 }
 
@@ -385,7 +389,12 @@ fn worst(a: Val, b: Val) -> Val {
 }
 
 fn expect_row(base: u64, r: &RowReq, file_raw: u64) -> GotRow {
-    GotRow { addr: base.wrapping_add(r.off), op: r.op, file: file_raw, line: r.line, col: r.col, disc: r.disc, flags: r.flags & 15, isa: r.isa, end: false }
+    GotRow { addr: base.wrapping_add(r.off), op: r.op, file: file_raw, line: r.line, col: r.col, disc: r.disc.unwrap_or(0), flags: want_flags(r.flags), isa: r.isa, end: false }
+}
+
+/// per-row flags a row must read back with
+fn want_flags(f: u64) -> u64 {
+    if f & 16 != 0 { f & 1 } else { f & 15 }
 }
 
 fn raw_file(ver: u16, index: u64) -> u64 {
@@ -871,7 +880,7 @@ fn op_prog(a: &[&str]) -> Option<String> {
                     prev_ptr = (r.off, r.op);
                     last_addr = addr;
                     cur_op = r.op;
-                    want_rows.push(GotRow { addr, op: r.op, file: raw_file(p.ver, cur_file), line: r.line, col: r.col, disc: r.disc, flags: r.flags & 15, isa: r.isa, end: false });
+                    want_rows.push(GotRow { addr, op: r.op, file: raw_file(p.ver, cur_file), line: r.line, col: r.col, disc: r.disc.unwrap_or(0), flags: want_flags(r.flags), isa: r.isa, end: false });
                 }
                 It::Es(off) => {
                     val = worst(val, row_val(&p, prev_ptr, *off, cur_op));
@@ -1029,7 +1038,7 @@ fn row_tok(r: &RowReq) -> String {
         r.file.map(|x| x.to_string()).unwrap_or("~".into()),
         r.line,
         r.col,
-        r.disc,
+        r.disc.map(|x| x.to_string()).unwrap_or("~".into()),
         r.flags,
         r.isa
     )
@@ -1037,7 +1046,14 @@ fn row_tok(r: &RowReq) -> String {
 
 /// (line_base, line_range) pairs that `LineProgram::new` accepts in every build
 fn gen_base_range(rng: &mut Rng) -> (i64, u64) {
-    match rng.below(10) {
+    match rng.below(12) {
+        10 => {
+            // line_range >= 128 with line_base + line_range in 1..127: refused by debug builds,
+            // let through by release builds (the i8 sum wraps)
+            let lr = rng.range(128, 255);
+            let k = rng.range((lr - 128).max(1), 127);
+            (k as i64 - lr as i64, lr)
+        }
         0 => (-5, 14),
         1 => (-3, 12),
         2 => (0, 1),
@@ -1214,8 +1230,12 @@ fn gen_prog(rng: &mut Rng, malformed: bool) -> String {
             if rng.chance(1, 5) {
                 stmtf ^= 1;
             }
-            let disc = if rng.chance(1, 4) { small_or_boundary(rng, 50) } else { 0 };
-            let flags = stmtf | if rng.chance(1, 5) { 2 } else { 0 } | if rng.chance(1, 6) { 4 } else { 0 } | if rng.chance(1, 6) { 8 } else { 0 };
+            let disc = match rng.below(8) {
+                0 | 1 => Some(small_or_boundary(rng, 50)),
+                2 | 3 => None,
+                _ => Some(0),
+            };
+            let flags = stmtf | if rng.chance(1, 5) { 2 } else { 0 } | if rng.chance(1, 6) { 4 } else { 0 } | if rng.chance(1, 6) { 8 } else { 0 } | if rng.chance(1, 4) { 16 } else { 0 };
             let mut off = (ptr / mmo) * mil;
             if malformed && rng.chance(1, 30) {
                 off += 1;
@@ -1264,21 +1284,26 @@ pub fn gen(ctx: &Ctx, emit: &mut dyn FnMut(String)) {
         let (lb, lr) = gen_base_range(&mut rng);
         tuples.push((*rng.pick(&[1u64, 2, 4]), *rng.pick(&[1u64, 2, 4]), lb, lr));
     }
-    for (mil, mo, lb, lr) in &tuples {
-        emit(format!("blk-wline @MODE@ {} {mil} {mo} {lb} {lr} -300 300 0 600", if rng.chance(1, 2) { 4 } else { 5 }));
+    // quick tier: 4 tuples with the whole grid, the others with operation advances 0..40 (all the
+    // special / const_add_pc boundaries of these encodings lie below 40); thorough: all whole
+    let full_quick = [0usize, 3, 13, 16];
+    for (i, (mil, mo, lb, lr)) in tuples.iter().enumerate() {
+        let oa_hi = if ctx.tier == Tier::Thorough || full_quick.contains(&i) { 600 } else { 40 };
+        emit(format!("blk-wline @MODE@ {} {mil} {mo} {lb} {lr} -300 300 0 {oa_hi}", if rng.chance(1, 2) { 4 } else { 5 }));
     }
     // 2b. smaller grids for every line_range 1..127 (x a seed-chosen line_base), and for line_range
     //     128..255 (which `new` refuses or — release builds — partly accepts)
     for lr in 1..=255u64 {
         let lbs: Vec<i64> = if lr <= 127 {
-            vec![0, -((lr - 1) as i64), -(rng.below(lr) as i64)]
+            if ctx.tier == Tier::Thorough { vec![0, -((lr - 1) as i64), -(rng.below(lr) as i64)] } else { vec![-(rng.below(lr) as i64), if lr % 2 == 0 { 0 } else { -((lr - 1) as i64) }] }
         } else {
-            vec![-128, (128 - lr as i64 - 1).max(-128), -(rng.below(129) as i64)]
+            // line_base + line_range = 127 (accepted by release builds), and one refused pair
+            vec![127 - lr as i64, -(rng.below(129) as i64).max(128 - lr as i64)]
         };
         for lb in lbs {
             let mil = *rng.pick(&[1u64, 2, 4]);
             let mo = *rng.pick(&[1u64, 2, 4]);
-            let span = ctx.n(40, 300) as i64;
+            let span = if lr <= 127 { ctx.n(40, 300) as i64 } else { ctx.n(130, 300) as i64 };
             let oa_hi = ctx.n(2 * 260 / lr as usize + 8, 600);
             emit(format!("blk-wline @MODE@ 4 {mil} {mo} {lb} {lr} -{span} {span} 0 {oa_hi}"));
         }
@@ -1327,8 +1352,12 @@ pub fn gen(ctx: &Ctx, emit: &mut dyn FnMut(String)) {
                 file: if rng.chance(1, 3) { Some(rng.below(nfiles + 1)) } else { None },
                 line,
                 col: if rng.chance(1, 2) { 0 } else { small_or_boundary(rng, 100) },
-                disc: if rng.chance(2, 3) { 0 } else { small_or_boundary(rng, 100) },
-                flags: rng.below(16),
+                disc: match rng.below(6) {
+                    0 | 1 => Some(small_or_boundary(rng, 100)),
+                    2 => None,
+                    _ => Some(0),
+                },
+                flags: rng.below(16) | if rng.chance(1, 5) { 16 } else { 0 },
                 isa: if rng.chance(3, 4) { 0 } else { small_or_boundary(rng, 10) },
             };
             if kind == 9 {
